@@ -30,6 +30,7 @@ STAGES = ['mapping', 'stats', 'refm', 'qmark', 'pmask', 'pm2m', 'transpose']
 MODES = ['kill', 'exit', 'raise']
 POINTS = ['before', 'mid', 'after']
 MAX_WORKERS = 6
+DESTS = ['all', 'csv_only', 'obsm_only', 'json_only', 'hdf5_csv']
 
 TREES = [
     {'hierarchy': ['class', 'subclass', 'cluster'],
@@ -59,6 +60,13 @@ def enumerate_specs(tier):
                     for p in POINTS:
                         for q in (grid if p == 'mid' else [None]):
                             out.append({'input': i, 'stage': s, 'worker': w, 'mode': m, 'point': p, 'q': q})
+    # the mapping stage with other destination sets (no JSON/HDF5 destination: CSV only, query.obsm only ...)
+    for i in inputs:
+        for dest in DESTS[1:]:
+            for w in range(3):
+                for m in MODES:
+                    for q in grid:
+                        out.append({'input': i, 'stage': 'mapping', 'worker': w, 'mode': m, 'point': 'mid', 'q': q, 'dest': dest})
     # interleave so that every shard sees every stage
     return out
 
@@ -71,6 +79,8 @@ def fixture(i):
     if i in _FIX:
         return _FIX[i]
     base = pathlib.Path(tempfile.mkdtemp(prefix=f'c14fix{i}_', dir=scratch_root()))
+    from pbt.core import remove_at_exit
+    remove_at_exit(base)
     rs = {'tree': TREES[i], 'n_genes': 24, 'cells_per': 12, 'seed': 5 + i, 'dtype': 'float32', 'enc': 'csr', 'shuffle': True}
     pipeline.write_ref_h5ad(base / 'ref.h5ad', rs)
     h = TREES[i]['hierarchy']
@@ -96,7 +106,7 @@ def fixture(i):
     return fx
 
 
-def stage_call(fx, stage, d):
+def stage_call(fx, stage, d, dest='all'):
     """returns (callable running the stage with outputs under d, output path or None)"""
     b = fx['base']
     d = pathlib.Path(d)
@@ -121,9 +131,15 @@ def stage_call(fx, stage, d):
                'min_markers': 2, 'normalization': 'raw', 'rng_seed': 11, 'tmp_dir': True, 'cloud_safe': False}
         paths = {'stats': b / 'stats.h5', 'query': b / 'query.h5ad', 'markers': b / 'markers.json'}
         holder = {}
+        kw = {'all': {}, 'csv_only': {'json_out': False, 'hdf5': False}, 'obsm_only': {'json_out': False, 'hdf5': False, 'csv': False},
+              'json_only': {'hdf5': False, 'csv': False}, 'hdf5_csv': {'json_out': False}}[dest]
+        if dest == 'obsm_only':
+            shutil.copy(b / 'query.h5ad', d / 'query.h5ad')
+            paths['query'] = d / 'query.h5ad'
+            cfg['obsm_key'] = 'cdm_mapping'
 
         def run():
-            o = mapping.run(d, paths, cfg)
+            o = mapping.run(d, paths, cfg, **kw)
             holder['o'] = o
             if o.error is not None:
                 raise o.error
@@ -252,7 +268,7 @@ def check(spec):
         md = d / 'markers'
         md.mkdir()
         try:
-            fn, out = stage_call(fx, stage, d)
+            fn, out = stage_call(fx, stage, d, spec.get('dest', 'all'))
             raised = None
             with inject.controlled(plan={w: plan}, marker_dir=md, all_files=all_files):
                 try:
@@ -275,6 +291,9 @@ def check(spec):
                     with h5py.File(h5, 'r') as f:
                         r['h5_has_results'] = 'assignment' in f.keys() or 'cell_id' in f.keys()
                 r['csv_exists'] = (d / 'out.csv').exists()
+                if (d / 'query.h5ad').exists():
+                    with h5py.File(d / 'query.h5ad', 'r') as f:
+                        r['obsm_written'] = 'obsm' in f and 'cdm_mapping' in f['obsm']
                 lf = d / 'out.log'
                 r['log_file_exists'] = lf.exists()
                 r['success_line_in_log_file'] = lf.exists() and 'RAN SUCCESSFULLY' in lf.read_text()
@@ -290,14 +309,17 @@ def check(spec):
     if r['raised'] is None:
         raise Violation('failed_worker_not_reported', ctx)
     if stage == 'mapping':
-        for k in ('json_has_results', 'h5_has_results', 'csv_exists', 'success_line_in_json_log', 'success_line_in_log_file'):
+        for k in ('json_has_results', 'h5_has_results', 'csv_exists', 'obsm_written', 'success_line_in_json_log', 'success_line_in_log_file'):
             if r.get(k):
                 raise Violation('partial_result_after_failure', dict(ctx, what=k))
-        if not r.get('log_file_exists') or not r.get('json_has_log'):
+        has_json = spec.get('dest', 'all') in ('all', 'json_only')
+        if not r.get('log_file_exists') or (has_json and not r.get('json_has_log')):
             raise Violation('log_not_written_after_failure', dict(ctx, observed=r))
     elif r.get('consumer_accepts'):
         raise Violation('output_of_failed_stage_accepted_downstream', ctx)
     classes = ['stage_' + stage, 'mode_' + spec['mode'], 'point_' + spec['point']]
+    if stage == 'mapping':
+        classes.append('mapping_dest_' + spec.get('dest', 'all'))
     if r['out_exists'] and stage != 'mapping':
         classes.append('output_file_left_but_rejected')
     return Case(True, classes, key=json.dumps(spec, sort_keys=True))
